@@ -235,3 +235,7 @@ impl<'a> Shrinker<'a> {
         }
     }
 }
+
+pub fn split_tokens_pub(s: &str) -> Vec<String> {
+    split_tokens(s).into_iter().map(|x| x.to_string()).collect()
+}
